@@ -277,6 +277,40 @@ def run_family(prop: str, tier: str) -> int:
     fails = fam.get("fail_classes", lambda t: [])(tier)
     max_ver = 1
     oracle = fam["oracle"]
+    T0_ = T0
+    def vkey(v):
+        placement = "cells" if v.get("cells") else ("script" if v.get("script") else "package")
+        # the behaviours of the script placement are those of a one-module package (DdsEval.OnDisk)
+        return (v["spec_store"], tuple(v["layouts"]), "package" if placement == "script" else placement)
+
+    # the histories of the next variant are generated (TLC processes started, not waited for) while
+    # the current one is replayed
+    keys: List[Any] = []
+    cells_of: Dict[Any, bool] = {}
+    for v in variants:
+        if vkey(v) not in keys:
+            keys.append(vkey(v))
+            cells_of[vkey(v)] = bool(v.get("cells"))
+    started: Dict[Any, Any] = {}
+    gens: Dict[Any, List[Dict[str, Any]]] = {}
+
+    def start(key) -> None:
+        vplans = [pl for pl in plans if "restart" not in pl] if cells_of[key] else plans
+        started[key] = evalfam.tlc_generate_start(_shapes_for(S, key[0]), vplans, max_ver, key[0], key[2], list(key[1]),
+                                                  name="gen%d_" % keys.index(key), stages=stages, fail_classes=fails,
+                                                  procs=common.NCPU // 2)
+
+    def histories(key) -> List[Dict[str, Any]]:
+        if key not in gens:
+            if key not in started:
+                start(key)
+            nxt = [k for k in keys if k not in started]
+            if nxt:
+                start(nxt[0])
+            gens[key] = evalfam.tlc_generate_finish(started[key])
+            _tm("generated %s (%d histories)" % (key, len(gens[key])), T0)
+        return gens[key]
+    start(keys[0])      # generation of the first histories runs along with the design runs
     # 1. the design: every invariant / action property of the machine, exhaustively
     states = trans = 0
     kinds_seen: Dict[str, int] = {}
@@ -296,21 +330,12 @@ def run_family(prop: str, tier: str) -> int:
     ref_checked = 0
     t_budget = 70 if tier == "quick" else 1500
     t0 = time.time()
-    gens: Dict[Any, List[Dict[str, Any]]] = {}
     proto_traces: List[Any] = []
     drift = 0
+
     for (vi, v) in enumerate(variants):
-        placement = "cells" if v.get("cells") else ("script" if v.get("script") else "package")
-        # the behaviours of the script placement are those of a one-module package (DdsEval.OnDisk)
-        key = (v["spec_store"], tuple(v["layouts"]), "package" if placement == "script" else placement)
-        if key not in gens:
-            vplans = [pl for pl in plans if "restart" not in pl] if v.get("cells") else plans
-            (_, hs) = evalfam.tlc_generate(_shapes_for(S, v["spec_store"]), vplans, max_ver, v["spec_store"],
-                                           key[2], v["layouts"], name="gen%d_" % vi, stages=stages,
-                                           fail_classes=fails)
-            gens[key] = hs
-            _tm("generated %s (%d histories)" % (key, len(hs)), T0)
-        hs = gens[key]
+        key = vkey(v)
+        hs = histories(key)
         byname = {}
         for s in S:
             s2 = copy.deepcopy(s)
@@ -339,7 +364,9 @@ def run_family(prop: str, tier: str) -> int:
             items = items[(seed + vi) % step:: step]
         if vi == 0:
             ref_checked = evalfam.reference_check(items, limit=300 if tier == "quick" else 2000)
-        remaining = max(10.0, t_budget - (time.time() - t0))
+        # a budget per variant (a loaded machine must not silently drop the later variants); it only cuts
+        # the number of replays, never a verdict
+        remaining = 60.0 if tier == "quick" else max(60.0, t_budget - (time.time() - t0))
         res = evalfam.replay_many(items, v["real_store"], loads=bool(fam.get("loads")), budget_s=remaining,
                                   accept=v.get("accept"), pristine=v.get("pristine"),
                                   mode="cells" if v.get("cells") else "dds")
